@@ -505,6 +505,27 @@ func Exists(vars []*Term, body *Term) *Term {
 	return mk("exists", "", nil, SBool, vars, body)
 }
 
+// SliceIdx is the position off+i of a slice element in its backing array. For symbolic indices it is kept as an
+// application idx(off, i) (defined by an axiom added to every script that uses it), so that quantified facts about slice
+// elements have patterns without arithmetic.
+func SliceIdx(off, i *Term) *Term {
+	if off.IsConst() && off.Val.Sign() == 0 {
+		return i
+	}
+	if i.IsConst() {
+		return Add(off, i)
+	}
+	return App("idx", SInt, off, i)
+}
+
+// ForallPat is Forall with explicit single-term E-matching patterns (no re-parameterisation).
+func ForallPat(vars []*Term, body *Term, pats ...*Term) *Term {
+	if body.IsTrue() || body.IsFalse() {
+		return body
+	}
+	return mk("forall", "", nil, SBool, vars, append([]*Term{body}, pats...)...)
+}
+
 func occurs(t, v *Term) bool {
 	seen := map[int]bool{}
 	var rec func(t *Term) bool
@@ -633,7 +654,18 @@ func (t *Term) writeBody(sb *strings.Builder, names map[int]string) {
 			sb.WriteString("(" + quoteSym(b.Name) + " " + b.S.String() + ")")
 		}
 		sb.WriteString(") ")
-		t.Args[0].write(sb, names)
+		if len(t.Args) > 1 {
+			sb.WriteString("(! ")
+			t.Args[0].write(sb, names)
+			for _, p := range t.Args[1:] {
+				sb.WriteString(" :pattern (")
+				p.write(sb, names)
+				sb.WriteString(")")
+			}
+			sb.WriteString(")")
+		} else {
+			t.Args[0].write(sb, names)
+		}
 		sb.WriteString(")")
 	case "app":
 		if len(t.Args) == 0 {
@@ -722,6 +754,9 @@ func Script(asserts []*Term, logicHdr string, produceModels bool) string {
 			sb.WriteString(a.String())
 		}
 		sb.WriteString(") " + d.Ret.String() + ")\n")
+	}
+	if usedFns["idx"] {
+		sb.WriteString("(assert (forall ((o Int) (i Int)) (! (= (idx o i) (+ o i)) :pattern ((idx o i)))))\n")
 	}
 	names := map[int]string{}
 	for _, t := range order {
